@@ -2,6 +2,7 @@ import RichModel.Lemmas.LayoutFits
 import RichModel.Lemmas.LayoutTableCols
 import RichModel.Lemmas.LayoutTableNil
 import RichModel.Lemmas.LayoutTableGeneral
+import RichModel.Lemmas.LayoutTableLow
 /-!
 The table and columns cases of the induction behind C01, and the induction itself (`good`, `goodL`).
 -/
@@ -136,7 +137,7 @@ theorem good_table (cfg : Cfg) (ok : CfgOk cfg) (to : TableOpts) (cols : List Co
         · exact tableBudget_width_indep cfg (to.subst cfg.env) (colsR cfg cols) w (max w tw) tw (by rw [subst_width, hwd])
     obtain ⟨W, hwW, hWB, hgetD, hWtw, hcon, hbud⟩ := hW
     rw [hcon]
-    rcases hcase with ⟨hfree, hroom⟩ | ⟨hne, hmin, hr, hb⟩
+    rcases hcase with hfree | ⟨hne, hmin, hr, hb⟩
     · cases hcols : cols with
       | nil =>
         rw [colsR_nil]
@@ -149,11 +150,7 @@ theorem good_table (cfg : Cfg) (ok : CfgOk cfg) (to : TableOpts) (cols : List Co
       | cons c0 cs =>
         right
         rw [← hcols]
-        have hroom' : tableExtra to cols.length + cols.length ≤ to.width.getD w := by
-          rcases hroom with h | h
-          · rw [h] at hcols; cases hcols
-          · exact h
-        obtain ⟨tw, body, h1, h2, h3, h4⟩ := tableConsole_decomp cfg ok.hcw ok.hfl (to.subst cfg.env) o (colsR cfg cols) W
+        obtain ⟨tw, body, h1, h2, h3, h4⟩ := tableConsole_decomp_any cfg ok.hcw ok.hfl (to.subst cfg.env) o (colsR cfg cols) W
           (by intro h; have := congrArg List.length h; rw [hlen, hcols] at this; simp at this)
           (by
             intro c hc'
@@ -161,19 +158,10 @@ theorem good_table (cfg : Cfg) (ok : CfgOk cfg) (to : TableOpts) (cols : List Co
             rw [colR_o]
             exact hfree x hx)
           (colsR_meas cfg cols)
-          (by
-            rw [hlen, hex]
-            cases hwd : to.width with
-            | none => rw [hwd] at hroom'; simp only [Option.getD_none] at hroom'; omega
-            | some tw => rw [hwd] at hroom'; simp only [Option.getD_some] at hroom'; have := hWtw tw hwd; omega)
-          (by
-            intro tw' htw'
-            rw [hlen, hex]
-            have htw'' : to.width = some tw' := htw'
-            rw [htw''] at hroom'
-            simp only [Option.getD_some] at hroom'
-            exact ⟨hWtw tw' htw'', hroom'⟩)
-        exact ⟨tw, body, by omega, h2, fun l hl => Nat.le_trans (h3 l hl) hWB, h4⟩
+          (by intro tw' htw'; exact hWtw tw' htw')
+        rw [hlen, hex] at h1 h3
+        have hWB' : max W (tableExtra to cols.length + cols.length) ≤ B := by omega
+        exact ⟨tw, body, by omega, h2, fun l hl => Nat.le_trans (h3 l hl) hWB', h4⟩
     · right
       obtain ⟨tw, body, htw, heq, hlines, hclosed⟩ := table_general_decomp cfg ok to cols o W hne hWtw hr (hbud hb)
       have hF : (toTable cfg (to.subst cfg.env) (colsR cfg cols)).floorSum = 0 := by
@@ -196,24 +184,66 @@ theorem good_table (cfg : Cfg) (ok : CfgOk cfg) (to : TableOpts) (cols : List Co
     exact ⟨fits_append _ _ _ _ (closed_append _ _ hc1 hclosed) (fits_append _ _ _ _ hc1 hf1 hfb) hf2,
       fun _ => closed_append _ _ (closed_append _ _ hc1 hclosed) hc2⟩
 
-theorem good_columns (cfg : Cfg) (ok : CfgOk cfg) (co : ColsOpts) (items : List R) : Good cfg (.columns co items) := by
-  intro o w hw hd
+/-- **A table with free columns at ANY width** (no room condition): no line is wider than the width the table is laid out for (the
+one on offer, or its own `Table(width=…)`) or — when that leaves less than one cell per column — than the borders plus ONE cell per
+column: below one cell per column `_calculate_column_widths` ends at exactly one cell for every column (`width_low_core`). -/
+theorem table_free_bound (cfg : Cfg) (ok : CfgOk cfg) (to : TableOpts) (cols : List Col) (o : Opts) (w : Nat)
+    (hne : cols ≠ []) (ht : annDom to.title o) (hc : annDom to.caption o)
+    (hfree : ∀ c ∈ cols, (colOptsOf c).wrappable ∧ ((cfg.fl.flexNegative = false ∧ cfg.fl.flexClampZero = false) ∨
+      (to.expand || to.width.isSome) = false ∨ (colOptsOf c).ratio ≠ some 0)) :
+    Fits cfg.cw (max (max w (to.width.getD 0)) (tableExtra to cols.length + cols.length)) (render cfg (.table to cols) o w) := by
   rw [render]
+  have hlen := colsR_length cfg cols
+  have hex := tableExtra_subst cfg.env to cols.length
+  have hW : (∀ tw, to.width = some tw → tw ≤ max w (to.width.getD 0)) ∧
+      tableConsole cfg (to.subst cfg.env) o (colsR cfg cols) w =
+        tableConsole cfg (to.subst cfg.env) o (colsR cfg cols) (max w (to.width.getD 0)) := by
+    cases hwd : to.width with
+    | none => exact ⟨fun tw h => (by cases h), (by simp)⟩
+    | some tw =>
+      refine ⟨fun tw' h => (by cases h; simp only [Option.getD_some]; omega), ?_⟩
+      exact tableConsole_width_indep cfg (to.subst cfg.env) o (colsR cfg cols) w _ tw (by rw [subst_width, hwd])
+  obtain ⟨hWtw, hcon⟩ := hW
+  rw [hcon]
+  generalize max w (to.width.getD 0) = W at *
+  obtain ⟨tw, body, h1, h2, h3, h4⟩ := tableConsole_decomp_any cfg ok.hcw ok.hfl (to.subst cfg.env) o (colsR cfg cols) W
+    (by intro h; apply hne; have := congrArg List.length h; rw [hlen] at this; exact List.eq_nil_of_length_eq_zero (by simpa using this))
+    (by
+      intro c hc'
+      obtain ⟨x, hx, rfl⟩ := colsR_mem cfg cols c hc'
+      rw [colR_o]
+      exact hfree x hx)
+    (colsR_meas cfg cols)
+    (by intro tw' htw'; exact hWtw tw' htw')
+  rw [hlen, hex] at h1 h3
+  rw [h2]
+  obtain ⟨hf1, hc1⟩ := ann_fits cfg ok to.title to.titleJustify o tw _ h1 ht
+  obtain ⟨hf2, _⟩ := ann_fits cfg ok to.caption to.captionJustify o tw _ h1 hc
+  have hfb := fits_of_lines_le _ _ _ h3
+  exact fits_append _ _ _ _ (closed_append _ _ hc1 h4) (fits_append _ _ _ _ hc1 hf1 hfb) hf2
+
+theorem good_columns (cfg : Cfg) (ok : CfgOk cfg) (co : ColsOpts) (items : List R) : Good cfg (.columns co items) := by
+  intro o w _ hd
+  rw [render, smin]
   rw [Dom] at hd
-  obtain ⟨ht, hwn, hn⟩ := hd
+  obtain ⟨ht, hwn⟩ := hd
   have hlen := chsR_length cfg items ({} : ColOpts).cellOpts
-  rcases columnsConsole_decomp cfg ok.hcw ok.hfl co o (chsR cfg items ({} : ColOpts).cellOpts) w hw hwn
+  have hsl := sminSum_ge_length cfg.cw items
+  generalize hB : max w (max 1 (sminSum cfg.cw items +
+    (match unpackPad co.lay.padding with | .ok p => max p.left p.right | .error _ => 0) * (items.length - 1))) = B
+  have hwB : max w items.length ≤ B := by omega
+  rcases columnsConsole_decomp_any cfg ok.hcw ok.hfl co o (chsR cfg items ({} : ColOpts).cellOpts) w hwn
       (by
         intro ch hch k
         obtain ⟨r, rfl⟩ := chsR_mem cfg items _ ch hch
-        exact chOf_measure_normal cfg r _ k)
-      (by rw [hlen]; exact hn) with h | h | ⟨tw, body, htw, heq, hlines, hclosed⟩
+        exact chOf_measure_normal cfg r _ k) with h | h | ⟨tw, body, htw, heq, hlines, hclosed⟩
   · rw [h, ok.hp]; exact ⟨fits_nil _ _, fun _ => closed_nil⟩
   · rw [h]; exact ⟨fits_nil _ _, fun _ => closed_nil⟩
   · rw [heq]
-    obtain ⟨hf1, hc1⟩ := ann_fits cfg ok co.title Justify.center o tw w htw ht
-    have hfb := fits_of_lines_le _ _ _ hlines
-    exact ⟨fits_mono _ _ _ _ (fits_append _ _ _ _ hc1 hf1 hfb) (Nat.le_max_left _ _), fun _ => closed_append _ _ hc1 hclosed⟩
+    rw [hlen] at htw hlines
+    obtain ⟨hf1, hc1⟩ := ann_fits cfg ok co.title Justify.center o tw B (by omega) ht
+    have hfb : Fits cfg.cw B body := fits_of_lines_le _ _ _ (fun l hl => Nat.le_trans (hlines l hl) hwB)
+    exact ⟨fits_append _ _ _ _ hc1 hf1 hfb, fun _ => closed_append _ _ hc1 hclosed⟩
 
 /-! ### the induction -/
 
